@@ -203,13 +203,16 @@ func syncScenario(w *World, p *Plan, rec *Record) {
 			return
 		}
 		a, b := *v, *v
+		w1, w2 := w.snapshot(src), w.snapshot(j)
 		e1 := src.Acc.AddLeaf(ctx, &a)
 		e2 := j.Acc.AddLeaf(ctx, &b)
 		vec = append(vec, fmt.Sprintf("%s:%v/%v", label, e1 == nil, e2 == nil))
 		w.probe("c14-follow-up-gossip")
 		if (e1 == nil) != (e2 == nil) {
 			cause := "joiner-decides-differently-from-peer:" + label
-			if (e1 != nil && containsStr(e1.Error(), "minimal weight")) || (e2 != nil && containsStr(e2.Error(), "minimal weight")) {
+			windowDiffers := w1 != nil && w2 != nil && (w1.Weight != w2.Weight || w1.Throughput != w2.Throughput)
+			weightRefusal := (e1 != nil && containsStr(e1.Error(), "minimal weight")) || (e2 != nil && containsStr(e2.Error(), "minimal weight"))
+			if weightRefusal && windowDiffers {
 				// the weight/throughput window is history dependent and is not part of what a sync transfers (known finding)
 				cause = "minimal-weight-window-differs-after-load"
 			}
